@@ -57,6 +57,17 @@ def instr(parts, rule, assumptions=None):
             "assumptions": assumptions or []}
 
 
+def plain(parts, rule, race=False, assumptions=None):
+    d = {"flavour": "plain", "pkg": "./zzverif/native/", "parts": parts, "rule": rule, "assumptions": assumptions or []}
+    if race:
+        d["race"] = True
+    return d
+
+
+def npart(name, run, q, t):
+    return {"name": name, "run": run, "quick": q, "thorough": t}
+
+
 LIN = ("Wing-Gong linearizability search of the recorded history (sequential prefix, concurrent phase, quiescent read-back of "
        "every key, Size/Count and Range/Items) against the reference model; Range/Items decomposed into one pseudo-read per "
        "key, DeleteExpired into one sweep per key (its observation = the callback ledger of that call); direct checks: phantom "
@@ -87,5 +98,46 @@ PROPS = {
                  "x a sweep: W is stalled at EVERY one of its scheduling points in turn, and inside its user function, while R runs alone. evaluations = executions. "
                  "Oracle: R never blocks (mutex/cond), never yields (spin), stays within 4x its quiescent step count + 64 of its own steps (decider 'stall'), and the complete "
                  "history is linearizable. Non-trivial = W was stalled strictly inside its call while R executed; distinct by hash(program, stall point). "),
+    "C10": plain([part("keys", "^TestC10$", 400, 12000, shards=8, steps=40, tsteps=60)],
+                 "Cases are generated call sequences (Load, Store, LoadOrStore, LoadAndStore, LoadAndDelete, Delete, Compute store/delete, pointee mutation) over "
+                 "a per-type key pool that contains ==-equal keys with different representations (strings in different backing arrays, +0/-0, structs whose padding bytes are "
+                 "0xFF garbage, interface values holding equal dynamic values, the nil interface, nil and non-nil pointers) and unequal look-alikes, for 19 key types "
+                 "(string, int, int8, uint16, int32, uint64, uintptr, float32, float64, complex128, bool, pointer, array, string array, padded struct, nested struct, struct with interface "
+                 "field, any, non-empty interface), on MapOf (default / constant hasher / presized) and CacheOf. Oracle: a builtin map[K]int fed the same calls (every result, "
+                 "values handed to Compute, Range as a set, Size); any panic on a valid key is a violation. evaluations = cases; non-trivial = an ==-equal key with a different "
+                 "representation was used for a lookup, or all hashes collide (constant hasher), or a lookup followed a mutation of memory the key points to; distinct by hash of (type, container, calls). "
+                 "The per-process hash key varies between the shard processes."),
+    "C11": instr([part("seq", "^TestC11$", 120, 4000, steps=120, tsteps=160)],
+                 "Cases are generated long call sequences (all nine mutators incl. Compute with every present/absent x store/delete combination, bulk inserts and bulk deletes of "
+                 "50-20000 keys over universes up to 30000 keys that cross every grow and shrink threshold several times, Clear) executed simultaneously on instance A "
+                 "(size hint from {-5,0,1,96,97,161,1000,100000}), instance B (another hint, other table seeds) and, for small universes of MapOf, instances with a constant and a "
+                 "four-bucket hasher (every slot-occupancy pattern of one chain); Map, MapOf (int/string/struct keys), Cache, CacheOf. Oracle: every result identical on all instances "
+                 "(this pins the value returned with ok=false too) and equal to the reference map model; full Range/Items + Size/Count checkpoints. evaluations = cases; non-trivial = the "
+                 "table grew AND shrank (Stats(); caches: > 400 entries then <= 1), or a delete-type call hit an absent key while the constant-hasher chain was exactly full; distinct by hash of the call list."),
+    "C12": instr([part("twins", "^TestC12$", 1500, 40000, steps=60, tsteps=90)],
+                 "Cases: ONE generated program (C01's call vocabulary incl. clock advances onto expiry instants, bulk operations, callbacks swapped at run time; or the Map vocabulary) "
+                 "executed in lock-step on Cache and CacheOf[string,interface{}] (or Map and MapOf[string,interface{}]) built by the same generated constructor variant "
+                 "(New/NewOf with options, NewDefault/NewOfDefault, NewMap*/NewMapOf*), values incl. nil, strings, arrays, floats. Oracle: differential - every return value, flag, "
+                 "time, user-function argument, evicted-callback ledger, Items/Range as sets, Count/Size, DefaultExpiration() must be deeply equal. evaluations = cases; non-trivial = a call "
+                 "touched an expired-uncleaned key, or a callback fired, or a bulk insert crossed both twins' grow thresholds; distinct by hash of (constructor variant, calls)."),
+    "C14": plain([npart("race", "^TestC14$", {"shards": 8, "checks": 1, "timeout": 900, "env": {"VERIF_C14_PROGRAMS": 18}},
+                        {"shards": 8, "checks": 1, "timeout": 3 * 3600, "env": {"VERIF_C14_PROGRAMS": 600}})],
+                 "Cases are generated parallel programs (rapid Custom generator harvested with Example(seed): container in {Map, MapOf, Cache, CacheOf}, profile in {write-heavy, "
+                 "read-heavy, range-under-write, settings churn (SetDefaultExpiration/SetEvictedCallback/DeleteExpired/Items), clear/resize churn over 300-4000 keys, janitor on at 1 ms}, "
+                 "2-64 goroutines x 50-2000 calls, key range 1-400, per-goroutine op streams from the program's seed), each executed natively as its own Go subtest in a binary built "
+                 "with -race. Oracle: the Go race detector (any report fails the subtest) and payload integrity: every value read back (also in visitors, Compute arguments, callbacks, "
+                 "Items) is a pointer to a freshly initialised 72-byte payload whose checksum must be consistent. evaluations = programs; non-trivial = >= 2 goroutines share a key range "
+                 "<= 400 with writers in every profile; distinct by hash of the program.", race=True,
+                 assumptions=["OS-scheduled: not reproducible by seed; absence of race reports is not absence of races."]),
+    "C15": plain([npart("janitor", "^TestC15$", {"shards": 4, "checks": 1, "timeout": 900, "env": {"VERIF_C15_CONFIGS": 16}},
+                        {"shards": 4, "checks": 1, "timeout": 3 * 3600, "env": {"VERIF_C15_CONFIGS": 400}})],
+                 "Cases are generated configurations (constructor variant x Cache/CacheOf x cleanup interval in {-5,0,2,3,5,10,20} ms x 1-60 caches x 0-50 entries with 1 ms TTL x 0-50 "
+                 "never-expiring entries x callback yes/no) run in real time. Oracle: interval > 0: with no user call on the keys Count() drops to the never-expiring population within "
+                 "max(200 intervals, 5 s) and the callback ledger holds every expired key exactly once and nothing else; interval <= 0: construction starts no goroutine, Count() is "
+                 "unchanged and no callback fires during a 60 ms window, DeleteExpired then cleans exactly; finally, after dropping all references and polling runtime.GC(), "
+                 "runtime.NumGoroutine() is back at its baseline and a finalizer sentinel stored in a cache of the same kind has been released, within 10 s. A missed deadline is "
+                 "re-run once in isolation; only a repeated miss is a violation. evaluations = cases; non-trivial = janitor configured with >= 1 expiring entry, or >= 2 caches dropped; "
+                 "distinct by hash of the configuration.",
+                 assumptions=["Real time and the real GC: deadlines (5 s / 10 s) are > 100x the latencies measured in this sandbox (18 ms / 6 ms)."]),
     "C13": instr([part("e2", "^TestC13$", 450, 9000)], E2_RULE + "Weights on Clear, Range, resize triggers, re-entrant callbacks. Oracle: scheduler deadlock detector (some thread unfinished, none runnable), no-progress detector (step budget 60x the non-preemptive run + 20000), quiescent read-back touching every bucket lock. " + LIN),
 }
